@@ -189,6 +189,47 @@ def run(res, proof):
                 del d1, d2
             del Lc, C
         res.count('strands_%d' % min(n, 5))
+    # ---- (after the registered-object scenarios, on objects of its own)
+    for names, s in cases:
+        rots = ref.rotations(names, s)
+        n = len(rots)
+        for k, (rn, rs) in enumerate(rots[:1]):
+            desc = {'seq': ' '.join(rn), 'sst': ''.join(rs)}
+            # the legacy views in ANY order, before and after in-place rotations: what was asked first (and whether it was refused)
+            # and how often the object was rotated has no influence - every answer is the current API's for the object's
+            # current description
+            if k == 0 and n >= 2:
+                def lviews(o, which):
+                    out = []
+                    for v in which:
+                        if v == 'pair_table': out.append(outcome(lambda: [list(x) for x in o.pair_table]))
+                        elif v == 'loop_index': out.append(outcome(lambda: o.get_loop_index((0, 0))))
+                        elif v == 'is_connected': out.append(outcome(lambda: o.is_connected))
+                        elif v == 'exterior': out.append(outcome(lambda: list(o.exterior_domains)))
+                        elif v == 'enclosed': out.append(outcome(lambda: list(o.enclosed_domains)))
+                        elif v == 'paired': out.append(outcome(lambda: o.get_paired_loc((0, 0))))
+                        elif v == 'kernel': out.append(outcome(lambda: o.kernel_string))
+                    return [(a, b if a == 'ok' else 'raises') for a, b in out]
+                VIEWS = ['pair_table', 'loop_index', 'is_connected', 'exterior', 'enclosed', 'paired', 'kernel']
+                for trial in range(2):
+                    order1 = rng.sample(VIEWS, rng.randint(1, 4))
+                    order2 = rng.sample(VIEWS, len(VIEWS))
+                    turns = rng.choice([1, 1, 2, n - 1, n + 1])
+                    dep.clear_memory(); clear_singletons(ComplexS)
+                    L3 = dep.DSD_Complex(list(rn), list(rs), name='L3')
+                    before_l = lviews(L3, order1)
+                    for _ in range(turns):
+                        L3.rotate_once()
+                    cur_seq, cur_sst = [str(x) for x in L3.sequence], list(L3.structure)
+                    C3 = ComplexS([dom[x] if x != '+' else '+' for x in cur_seq], list(cur_sst), name='C3')
+                    after_l, after_c = lviews(L3, order2), lviews(C3, order2)
+                    d3 = dict(desc, asked_before=order1, rotate_once_calls=turns, asked_after=order2)
+                    res.count('legacy_views_any_order')
+                    if after_l != after_c:
+                        bad = [v for v, a, b in zip(order2, after_l, after_c) if a != b]
+                        res.violation('legacy-differs:views-after-rotate_once:' + bad[0], d3, 'legacy %r' % (after_l,), 'current API on the same description %r' % (after_c,))
+                    del L3, C3
+    dep.clear_memory(); clear_singletons(ComplexS)
     dep.clear_memory(); clear_singletons(ComplexS)
     # ---- SequenceConstraint vs iupac functions
     for _ in range(1500 if quick else 30000):
